@@ -25,7 +25,10 @@ def plan(which, rng, thorough=True):
                  # a datagram that arrives at 0.8 T of a timed blocking receive under a stream of handled signals must be delivered
                  ["sigdata", "4", "500"],
                  # a blocking connect interrupted once while the handshake is pending (the retry is answered EALREADY)
-                 ["eintrconn", "4"]]
+                 ["eintrconn", "4"],
+                 # a sender with a short timeout against a receiver that starts late: received bytes = bytes reported as sent, also
+                 # across timed-out calls and the close right after the last reported bytes
+                 ["stall", str(rng.randrange(1, 10**6)), "4", "300"]]
     elif which == "C09":
         for fam in (4, 6):
             runs.append(["udpq", str(rng.randrange(1, 10**6)), str(fam)])
@@ -39,6 +42,7 @@ def plan(which, rng, thorough=True):
                 runs.append(["udp", str(rng.randrange(1, 10**6)), str(fam), str(storm)])
             runs.append(["gone", str(fam)])
             runs.append(["eintrconn", str(fam)])
+            runs += [["stall", str(rng.randrange(1, 10**6)), str(fam), "300"], ["stall", str(rng.randrange(1, 10**6)), str(fam), "700"]]
     elif which == "C10" and not thorough:
         # quick tier: descriptor flags and the closed state on the real kernel, after accepts that failed for a real reason (< 1 s)
         runs += [["flags", "4"], ["flags", "6"]]
@@ -49,6 +53,9 @@ def plan(which, rng, thorough=True):
                 for storm in (0, 1):
                     runs.append(["timed", str(fam), str(T), str(storm)])
             runs.append(["sigdata", str(fam), "800"])
+            # the data path under the modes of this property: a blocking sender through 4 KiB buffers (waits for writability)
+            runs.append(["tcp", str(rng.randrange(1, 10**6)), str(fam), "150000", "0", "0"])
+            runs.append(["stall", str(rng.randrange(1, 10**6)), str(fam), "300"])
     return runs
 
 
